@@ -19,6 +19,8 @@ pub fn run(key: &str, a: &[String]) -> String {
         "freezer_k5" => crate::freezer::k5(a),
         "freezer_k2" => crate::freezer::k2(a),
         "freezer_k3" => crate::freezer::k3(a),
+        "freezer_k6" => crate::freezer::k6(a),
+        "freezer_k7" => crate::freezer::k7(a),
         _ => panic!("unknown key {key}"),
     }
 }
